@@ -263,6 +263,11 @@ def check_reconvert(case):
                 cls.add('add_circuit')
             elif m['kind'] == 'rename':
                 old = labs[m['x'] % len(labs)]
+                # (every other time a block member that the conversion will have to give a helper, if there is one)
+                in_blocks = [l for b in c.blocks.values() for l in b.gates
+                             if l in c.gates and c.gates[l].gate_type.name in HELPER]
+                if in_blocks and m['y'] % 2:
+                    old = in_blocks[m['x'] % len(in_blocks)]
                 c.rename_gate(old, f'renamed{k}')
                 if old in typ0 and typ0[old] != 'INPUT':
                     retired.append(old)
